@@ -375,9 +375,12 @@ def make_finite(batches, betas, beta_final, shifted=False):
                       theory="QF_LRA", max_paths=5000)
 
 
-def make_replaced_history(batches, betas, beta_final, D):
+def make_replaced_history(batches, betas, beta_final, D, batches2=None):
     """sequence on ONE object: compute, replace the history by a different one of the same shape (update_from_dict, the
-    load/resume path), compute again - the second result must follow the formula for the NEW history (no stale caches)."""
+    load/resume path), compute again - the second result must follow the formula for the NEW history (no stale caches).
+    batches2: batch sizes of the replacing history (same number of iterations, possibly different sizes per iteration:
+    anything remembered per iteration - the mixture offsets log(n_t/N) - must be rebuilt)."""
+    batches2 = tuple(batches2) if batches2 is not None else tuple(batches)
 
     def harness(ctx: PathCtx):
         st, pb1, _ = build_state(ctx, batches, betas, D)
@@ -386,7 +389,7 @@ def make_replaced_history(batches, betas, beta_final, D):
         other = StateManager(n_dim=1)
         pb2 = []
         k = 0
-        for t, nt in enumerate(batches):
+        for t, nt in enumerate(batches2):
             ls = [LogVal.atom(f"m{k + j}", D) for j in range(nt)]
             zt = real(ctx, f"Y{t}", lo=0, lo_strict=True)
             other.update_current({"logl": sarr(ls), "beta": float(betas[t]), "logz": LogVal.of_positive(zt)})
@@ -407,8 +410,8 @@ def make_replaced_history(batches, betas, beta_final, D):
         rng = np.random.RandomState(0)
         st = StateManager(n_dim=1)
         other = StateManager(n_dim=1)
-        for s_, off in ((st, 0.0), (other, 5.0)):
-            for t, nt in enumerate(batches):
+        for s_, off, bs in ((st, 0.0, batches), (other, 5.0, batches2)):
+            for t, nt in enumerate(bs):
                 s_.update_current({"logl": rng.randn(nt) - off, "beta": float(betas[t]), "logz": float(rng.randn())})
                 s_.commit_current_to_history()
         st.compute_logw_and_logz(float(beta_final))
@@ -419,9 +422,10 @@ def make_replaced_history(batches, betas, beta_final, D):
         return {"reproduced": bool(bad), "signature": "compute_logw_and_logz:stale-after-history-replacement", "payload": {"got": np.asarray(a[0]).tolist(), "expected": np.asarray(b[0]).tolist()},
                 "what": "compute_logw_and_logz after update_from_dict(<a different history of the same shape>) returns weights that do not belong to the new history"}
 
-    return Obligation(f"replaced-history-n{'x'.join(map(str, batches))}-bf{beta_final}", harness, replay=replay,
+    suffix = "" if batches2 == tuple(batches) else "-by-n" + "x".join(map(str, batches2))
+    return Obligation(f"replaced-history-n{'x'.join(map(str, batches))}{suffix}-bf{beta_final}", harness, replay=replay,
                       encodes=[StateManager.compute_logw_and_logz, StateManager.update_from_dict, StateManager.to_dict],
-                      bounds=f"two symbolic histories with batches {batches}, betas {list(map(str, betas))}; compute / replace / compute on one object",
+                      bounds=f"two symbolic histories with batches {batches} and {batches2}, betas {list(map(str, betas))}; compute / replace / compute on one object",
                       stubs=["np.log/np.logaddexp -> exact log-domain algebra"], theory="QF_NRA")
 
 
@@ -663,6 +667,11 @@ def obligations(tier):
         obs.append(make_relational(batches, tuple(Fraction(b) for b in betas), Fraction(bf), D, "permute"))
         obs.append(make_relational(batches, tuple(Fraction(b) for b in betas), Fraction(bf), D, "shift"))
     obs.append(make_replaced_history((2, 1), (Fraction(0), H), Fraction(1), 2))
+    # same number of iterations, other batch sizes per iteration (seeded C04-6A: mixture offsets cached by iteration count)
+    obs.append(make_replaced_history((2, 1), (Fraction(0), H), Fraction(1), 2, batches2=(1, 2)))
+    if tier == "thorough":
+        obs.append(make_replaced_history((1, 2, 1), (Fraction(0), H, Fraction(1)), Fraction(1), 2, batches2=(2, 1, 1)))
+        obs.append(make_replaced_history((3, 1), (Fraction(0), H), H, 2, batches2=(1, 3)))
     obs.append(make_symbolic_beta((2, 1, 1)))
     obs.append(make_symbolic_beta((1, 1), free_final=True))
     obs.append(make_finite((2, 1), (Fraction(0), H), Fraction(1)))
